@@ -53,6 +53,10 @@ Definition bank_of (l : list (Z * lcoins)) (m : Z) (mod0 : lcoins) : bank :=
   fun a => if a =? m then cof mod0 else lget a l.
 
 Section Run.
+(* model variants selected by the harness probes (used by the correspondence only) *)
+Variable dynguard : bool.
+Variable gate_exact : bool.
+Variable remove_atomic : bool.
 Variable actors : list (Z * list Z).
 Variable U : list Z.
 Definition ceq (a b : fcoins) : bool := forallb (fun d => a d =? b d) U.
@@ -82,7 +86,7 @@ Fixpoint sp_corr (accts : list Z) (s : sstate) (h : list (Z * sp_op * sobs)) : b
   match h with
   | [] => true
   | (now, op, o) :: r =>
-      let res := sp_apply actors U now op s in
+      let res := sp_apply dynguard actors U now op s in
       let s' := match res with Ok s' => s' | _ => s end in
       sp_obs_matches accts s s' (res_of res) o && sp_corr accts s' r
   end.
@@ -97,7 +101,7 @@ Fixpoint ubi_corr (hardcap : Z) (s : ustate) (h : list (Z * ubi_op * uobs)) : bo
   match h with
   | [] => true
   | (now, op, o) :: r =>
-      let res := ubi_apply hardcap now op s in
+      let res := ubi_apply gate_exact hardcap now op s in
       let s' := match res with Ok (s', _) => s' | _ => s end in
       ubi_obs_matches s' (res_of res) o && ubi_corr hardcap s' r
   end.
@@ -119,7 +123,7 @@ Fixpoint co_corr (accts : list Z) (s : cstate) (h : list (Z * co_op * cobs)) : b
   match h with
   | [] => true
   | (now, op, o) :: r =>
-      let res := co_apply actors U now op s in
+      let res := co_apply remove_atomic actors U now op s in
       let s' := match res with Ok s' => s' | _ => s end in
       co_obs_matches accts s s' (res_of res) o && co_corr accts s' r
   end.
@@ -134,18 +138,28 @@ Fixpoint mismatches_from (n : nat) (cs : list c18_case) : list nat :=
   match cs with [] => [] | c :: r => if case_matches c then mismatches_from (S n) r else n :: mismatches_from (S n) r end.
 Definition c18_mismatches (cs : list c18_case) : list nat := mismatches_from 0 cs.
 
-(* ================================================================ THE PROPERTY, on real observations *)
+(* ================================================================ THE PROPERTY, on real observations
+   The checker keeps its OWN (ghost) record of what the property speaks about -- pool terms as set by
+   accepted create / passed update, pool books as deposits minus payments, each beneficiary's last
+   accepted registration / claim, each contributor's bonds put in and the latest unlock time it ever
+   committed to, each UBI record as upserted and its last distribution, the donation book as seeded
+   minus sent -- and judges every payment against that record, never against the store fields the
+   operation under test may have rewritten.  After every operation the stored records are also
+   compared with the ghost record. *)
 Definition flag (b : bool) (name : string) : list string := if b then [] else [name].
 Definition cnonneg (a : fcoins) : bool := forallb (fun d => 0 <=? a d) U.
 Definition cle (a b : fcoins) : bool := forallb (fun d => a d <=? b d) U.
 Definition cscale (n : Z) (a : fcoins) : fcoins := fun d => n * a d.
 Definition count_z (a : Z) (l : list Z) : Z := Z.of_nat (List.length (filter (Z.eqb a) l)).
+Definition fget (k : Z) (l : list (Z * fcoins)) : fcoins := match zget k l with Some c => c | None => czero end.
 
 (* ---------------- spending *)
 Record sspec := mkSS {
-  ss_pools : list (Z * opool);     (* the stored pool records as last observed *)
-  ss_mod : fcoins;                 (* module balance as last observed *)
-  ss_last : list (pkey * Z) }.     (* the checker's own record: last accepted registration / claim *)
+  ss_pools : list (Z * opool);     (* the stored pool records as last observed (to rebuild the store) *)
+  ss_terms : list (Z * terms);     (* ghost: terms set by accepted create / passed update (+ dynamic rates) *)
+  ss_book : list (Z * fcoins);     (* ghost: deposits minus payments per pool *)
+  ss_mod : fcoins;                 (* module account balance as last observed (bank) *)
+  ss_last : list (pkey * Z) }.     (* ghost: last accepted registration / claim per (pool, account) *)
 
 (* every weight the pool terms grant to account a (by account entry or by a role it holds) *)
 Definition granted_weights (T : terms) (a : Z) : list Z :=
@@ -165,27 +179,55 @@ Definition within_entitlement (T : terms) (a last now : Z) (paid : fcoins) : boo
 
 Definition check_payment (S : sspec) (now p a : Z) (paid : fcoins) : list string :=
   if ceq paid czero then [] else
-  match zget p (ss_pools S) with
+  match zget p (ss_terms S) with
   | None => ["paid_from_unknown_pool"%string]
-  | Some ob =>
+  | Some T =>
       flag (cnonneg paid) "negative_payment"
       ++ match pget (p, a) (ss_last S) with
          | None => ["paid_unregistered"%string]
-         | Some last => flag (within_entitlement (op_terms ob) a last now paid) "over_entitlement"
+         | Some last => flag (within_entitlement T a last now paid) "over_entitlement"
          end
-      ++ flag (negb (match granted_weights (op_terms ob) a with [] => true | _ => false end)) "paid_non_beneficiary"
-      ++ flag (cle paid (cof (op_bal ob))) "over_book"
+      ++ flag (negb (match granted_weights T a with [] => true | _ => false end)) "paid_non_beneficiary"
+      ++ flag (cle paid (fget p (ss_book S))) "over_book"
   end.
 
 Definition patch_pools (l : list (Z * opool)) (d : list (Z * opool)) : list (Z * opool) :=
   fold_left (fun acc e => zset (fst e) (snd e) acc) d l.
-Definition book (l : list (Z * opool)) (p : Z) : fcoins := match zget p l with Some ob => cof (op_bal ob) | None => czero end.
-Definition books_sum (l : list (Z * opool)) : fcoins := fun d => zsum (map (fun e => cof (op_bal (snd e)) d) l).
+Definition books_sum (l : list (Z * fcoins)) : fcoins := fun d => zsum (map (fun e => snd e d) l).
 Definition delta_of (o : sobs) (a : Z) : fcoins := lget a (so_deltas o).
 Definition sum_deltas (o : sobs) : fcoins := fun d => zsum (map (fun e => cof (snd e) d) (so_deltas o)).
-Definition only_book_changed (p : Z) (o : sobs) : bool := forallb (fun e => fst e =? p) (so_pools o).
 Definition allowed_by_terms (T : terms) (a : Z) : bool :=
   existsb (fun e => fst e =? a) (t_baccts T) || existsb (fun e => existsb (Z.eqb (fst e)) (roles_of actors a)) (t_broles T).
+(* the stored terms agree with the ghost terms; the stored expiry may only be stricter (the update
+   proposal carries no expiry: the checker keeps the one the pool was created with) *)
+Definition terms_agree (stored ghost : terms) : bool :=
+  (t_start stored =? t_start ghost) && (t_end stored =? t_end ghost) && (t_expiry stored <=? t_expiry ghost)
+  && list_eqb zz_eqb (t_rates stored) (t_rates ghost) && list_eqb zz_eqb (t_broles stored) (t_broles ghost)
+  && list_eqb zz_eqb (t_baccts stored) (t_baccts ghost) && Bool.eqb (t_dyn stored) (t_dyn ghost) && (t_dynp stored =? t_dynp ghost).
+Definition with_rates (T : terms) (r : list (Z * Z)) : terms :=
+  mkTerms (t_start T) (t_end T) (t_expiry T) r (t_broles T) (t_baccts T) (t_dyn T) (t_dynp T).
+Definition with_expiry (T : terms) (x : Z) : terms :=
+  mkTerms (t_start T) (t_end T) x (t_rates T) (t_broles T) (t_baccts T) (t_dyn T) (t_dynp T).
+
+(* ghost record after an accepted operation *)
+Definition sp_ghost_terms (S : sspec) (post : list (Z * opool)) (op : sp_op) : list (Z * terms) :=
+  match op with
+  | OCreate p T => zset p T (ss_terms S)
+  | OUpdate p T => zset p (with_expiry T (match zget p (ss_terms S) with Some T0 => t_expiry T0 | None => 0 end)) (ss_terms S)
+  | OEndBlock =>     (* dynamic pools: the end blocker recalculates the rates; nothing else *)
+      map (fun e => if t_dyn (snd e) then
+                      match zget (fst e) post with Some ob => (fst e, with_rates (snd e) (t_rates (op_terms ob))) | None => e end
+                    else e) (ss_terms S)
+  | _ => ss_terms S
+  end.
+Definition sp_ghost_book (accts : list Z) (S : sspec) (op : sp_op) (o : sobs) : list (Z * fcoins) :=
+  match op with
+  | OCreate p _ => if zhas p (ss_book S) then ss_book S else zset p czero (ss_book S)
+  | ODeposit _ p amt => zset p (cadd (fget p (ss_book S)) (cof amt)) (ss_book S)
+  | OClaim a p => zset p (csub (fget p (ss_book S)) (delta_of o a)) (ss_book S)
+  | ODistribute p | OWithdraw p _ _ => zset p (csub (fget p (ss_book S)) (sum_deltas o)) (ss_book S)
+  | _ => ss_book S
+  end.
 
 Definition sp_step_clauses (accts : list Z) (S : sspec) (now : Z) (op : sp_op) (o : sobs) : list string :=
   let post := patch_pools (ss_pools S) (so_pools o) in
@@ -196,46 +238,52 @@ Definition sp_step_clauses (accts : list Z) (S : sspec) (now : Z) (op : sp_op) (
           && match so_pools o with [] => true | _ => false end
           && match so_claims o with [] => true | _ => false end) "rejected_but_changed"
   else
+  let terms' := sp_ghost_terms S post op in
+  let book' := sp_ghost_book accts S op o in
   (* funds leave the module only by a claim or a passed distribution / withdraw proposal *)
   flag (cle out czero || match op with OClaim _ _ | ODistribute _ | OWithdraw _ _ _ => true | _ => false end) "funds_left_without_claim_or_proposal"
-  ++ flag (cle (books_sum post) mod') "books_exceed_module_balance"
+  ++ flag (cle (books_sum book') mod') "books_exceed_module_balance"
+  (* the stored records are what the ghost record says *)
+  ++ flag (forallb (fun e => match zget (fst e) terms' with Some T => terms_agree (op_terms (snd e)) T | None => false end) post
+           && forallb (fun e => zhas (fst e) post) terms') "terms_changed_without_create_or_update"
+  ++ flag (forallb (fun e => ceq (cof (op_bal (snd e))) (fget (fst e) book')) post)
+          (match op with
+           | OClaim _ _ | ODistribute _ | OWithdraw _ _ _ => "book_not_reduced_by_payment"
+           | ODeposit _ _ _ => "deposit_not_booked"
+           | _ => "book_changed_without_funds" end)
   ++ match op with
      | OClaim a p =>
          check_payment S now p a (delta_of o a)
          ++ flag (forallb (fun b => (b =? a) || ceq (delta_of o b) czero) accts) "paid_someone_else"
-         ++ flag (ceq (book post p) (csub (book (ss_pools S) p) (delta_of o a)) && ceq out (delta_of o a)) "book_not_reduced_by_payment"
+         ++ flag (ceq out (delta_of o a)) "payment_not_from_module"
      | ODistribute p =>
          flat_map (fun a => check_payment S now p a (delta_of o a)) accts
-         ++ flag (ceq (book post p) (csub (book (ss_pools S) p) (sum_deltas o)) && ceq out (sum_deltas o)) "book_not_reduced_by_payment"
+         ++ flag (ceq out (sum_deltas o)) "payment_not_from_module"
      | OWithdraw p bens amt =>
-         match zget p (ss_pools S) with
+         match zget p (ss_terms S) with
          | None => ["paid_from_unknown_pool"%string]
-         | Some ob =>
+         | Some T =>
              flag (forallb (fun a => ceq (delta_of o a) (cscale (count_z a bens) (cof amt))) accts) "withdraw_not_as_proposed"
-             ++ flag (forallb (fun a => allowed_by_terms (op_terms ob) a) bens) "paid_non_beneficiary"
-             ++ flag (cle (cscale (Z.of_nat (List.length bens)) (cof amt)) (cof (op_bal ob))) "over_book"
-             ++ flag (ceq (book post p) (csub (book (ss_pools S) p) (cscale (Z.of_nat (List.length bens)) (cof amt)))) "book_not_reduced_by_payment"
+             ++ flag (forallb (fun a => allowed_by_terms T a) bens) "paid_non_beneficiary"
+             ++ flag (cle (cscale (Z.of_nat (List.length bens)) (cof amt)) (fget p (ss_book S))) "over_book"
          end
      | ODeposit a p amt =>
-         flag (ceq (delta_of o a) (cscale (-1) (cof amt)) && ceq (book post p) (cadd (book (ss_pools S) p) (cof amt))
-               && ceq mod' (cadd (ss_mod S) (cof amt))) "deposit_not_booked"
-     | OBankSend a amt => flag (forallb (fun e => ceq (cof (op_bal (snd e))) (book (ss_pools S) (fst e))) post) "book_changed_without_funds"
-     | _ =>
-         flag (forallb (fun a => ceq (delta_of o a) czero) accts && ceq out czero
-               && forallb (fun e => ceq (cof (op_bal (snd e))) (book (ss_pools S) (fst e))) post) "funds_moved_by_non_payment_op"
+         flag (ceq (delta_of o a) (cscale (-1) (cof amt)) && ceq mod' (cadd (ss_mod S) (cof amt))) "deposit_not_booked"
+     | OBankSend a amt => []
+     | _ => flag (forallb (fun a => ceq (delta_of o a) czero) accts && ceq out czero) "funds_moved_by_non_payment_op"
      end.
 
 Definition sp_next (accts : list Z) (S : sspec) (now : Z) (op : sp_op) (o : sobs) : sspec :=
   let post := patch_pools (ss_pools S) (so_pools o) in
+  if negb (so_res o =? 0) then mkSS post (ss_terms S) (ss_book S) (cof (so_mod o)) (ss_last S) else
   let last' :=
-    if negb (so_res o =? 0) then ss_last S else
     match op with
     | ORegister a p => pset (p, a) now (ss_last S)
     | OClaim a p => pset (p, a) now (ss_last S)
     | ODistribute p => fold_left (fun acc a => if ceq (delta_of o a) czero then acc else pset (p, a) now acc) accts (ss_last S)
     | _ => ss_last S
     end in
-  mkSS post (cof (so_mod o)) last'.
+  mkSS post (sp_ghost_terms S post op) (sp_ghost_book accts S op o) (cof (so_mod o)) last'.
 
 Fixpoint sp_clauses (accts : list Z) (S : sspec) (h : list (Z * sp_op * sobs)) : list string :=
   match h with
@@ -245,35 +293,42 @@ Fixpoint sp_clauses (accts : list Z) (S : sspec) (h : list (Z * sp_op * sobs)) :
 
 (* ---------------- ubi *)
 Record uspec := mkUSp {
-  up_recs : list (Z * urec);       (* records as last observed *)
-  up_last : list (Z * Z);          (* the checker's own record of each record's last distribution *)
+  up_g : list (Z * urec);          (* ghost: records as upserted, u_last = the checker's own last distribution *)
+  up_recs : list (Z * urec);       (* stored records as last observed *)
   up_books : list (Z * Z);
   up_minted : Z }.
 Definition pay_of (r : urec) : Z := Z.max 0 (u_amount r * 1000000).
+(* the end blocker stamped the stored record *)
 Definition processed (pre : list (Z * urec)) (post : list (Z * urec)) (id : Z) : bool :=
   match uget id pre, uget id post with
   | Some a, Some b => negb (u_last a =? u_last b)
   | _, _ => false
   end.
-Definition due_by_text (now last : Z) (r : urec) : bool :=
-  (last + u_period r <? now) && ((u_end r =? 0) || (last <? u_end r)).
+Definition due_by_text (now : Z) (r : urec) : bool :=
+  (u_last r + u_period r <? now) && ((u_end r =? 0) || (u_last r <? u_end r)).
 Definition books_delta (pre post : list (Z * Z)) (p : Z) : Z :=
   match uget p post, uget p pre with Some a, Some b => a - b | Some a, None => a | _, _ => 0 end.
+Definition ubi_ghost (S : uspec) (now : Z) (op : ubi_op) (o : uobs) : list (Z * urec) :=
+  match op with
+  | UEndBlock => map (fun e => if processed (up_recs S) (uo_recs o) (fst e) then (fst e, touch now (snd e)) else e) (up_g S)
+  | UUpsert id r => uins id (mkU (u_start r) (u_end r) (u_start r) (u_amount r) (u_period r) (u_pool r) false) (up_g S)
+  | URemove id => udel id (up_g S)
+  end.
+Definition recs_eqb (a b : list (Z * urec)) : bool := list_eqb (fun x y => (fst x =? fst y) && urec_eqb (snd x) (snd y)) a b.
 
 Definition ubi_step_clauses (S : uspec) (now : Z) (op : ubi_op) (o : uobs) : list string :=
   let minted := uo_minted o - up_minted S in
   let booked := zsum (map (fun e => books_delta (up_books S) (uo_books o) (fst e)) (uo_books o)) in
   if negb (uo_res o =? 0) then
-    flag ((minted =? 0) && list_eqb (fun a b => (fst a =? fst b) && urec_eqb (snd a) (snd b)) (up_recs S) (uo_recs o)) "rejected_but_changed"
+    flag ((minted =? 0) && recs_eqb (up_recs S) (uo_recs o)) "rejected_but_changed"
   else
-  match op with
+  flag (recs_eqb (uo_recs o) (ubi_ghost S now op o)) "stored_record_not_as_upserted_and_distributed"
+  ++ match op with
   | UEndBlock =>
-      let done := filter (fun e => processed (up_recs S) (uo_recs o) (fst e)) (up_recs S) in
+      let done := filter (fun e => processed (up_recs S) (uo_recs o) (fst e)) (up_g S) in
       (* each distribution happens only when a full period has passed since the previous one,
          while the record is active *)
-      flag (forallb (fun e => match uget (fst e) (up_last S) with
-                              | Some last => due_by_text now last (snd e)
-                              | None => false end) done) "paid_before_period_elapsed"
+      flag (forallb (fun e => due_by_text now (snd e)) done) "paid_before_period_elapsed"
       (* and pays at most the record's amount, into the record's pool *)
       ++ flag ((0 <=? minted) && (minted <=? zsum (map (fun e => pay_of (snd e)) done))) "paid_more_than_amount"
       ++ flag (forallb (fun e => books_delta (up_books S) (uo_books o) (fst e)
@@ -283,14 +338,7 @@ Definition ubi_step_clauses (S : uspec) (now : Z) (op : ubi_op) (o : uobs) : lis
   | _ => flag ((minted =? 0) && (booked =? 0)) "funds_moved_by_non_payment_op"
   end.
 Definition ubi_next (S : uspec) (now : Z) (op : ubi_op) (o : uobs) : uspec :=
-  let last' :=
-    if negb (uo_res o =? 0) then up_last S else
-    match op with
-    | UEndBlock => fold_left (fun acc e => if processed (up_recs S) (uo_recs o) (fst e) then uset (fst e) now acc else acc) (up_recs S) (up_last S)
-    | UUpsert id r => uset id (u_start r) (up_last S)
-    | URemove id => udel id (up_last S)
-    end in
-  mkUSp (uo_recs o) last' (uo_books o) (uo_minted o).
+  mkUSp (if uo_res o =? 0 then ubi_ghost S now op o else up_g S) (uo_recs o) (uo_books o) (uo_minted o).
 Fixpoint ubi_clauses (S : uspec) (h : list (Z * ubi_op * uobs)) : list string :=
   match h with
   | [] => []
@@ -299,17 +347,36 @@ Fixpoint ubi_clauses (S : uspec) (h : list (Z * ubi_op * uobs)) : list string :=
 
 (* ---------------- collectives *)
 Record cspec := mkCSp {
-  cp_putin : list (pkey * fcoins);  (* (collective, account) -> bonds put in since the last return *)
-  cp_lock : list (pkey * Z);        (* the checker's own record of accepted locks *)
-  cp_mod : fcoins;
-  cp_colls : list (Z * ocoll) }.
+  cp_putin : list (pkey * fcoins);  (* ghost: (collective, account) -> bonds put in since the last return *)
+  cp_lock : list (pkey * Z);        (* ghost: the latest unlock time the contributor ever committed to *)
+  cp_book : list (Z * fcoins);      (* ghost: donations seeded minus donations sent, per collective *)
+  cp_mod : fcoins;                  (* module account balance as last observed (bank) *)
+  cp_colls : list (Z * ocoll) }.    (* stored records as last observed *)
 Definition putin_of (S : cspec) (c a : Z) : fcoins := match pget (c, a) (cp_putin S) with Some b => b | None => czero end.
+Definition lock_of (S : cspec) (c a : Z) : Z := match pget (c, a) (cp_lock S) with Some l => l | None => 0 end.
+Definition member (S : cspec) (c a : Z) : bool := negb (ceq (putin_of S c a) czero).
 Definition near (a b : fcoins) : bool := forallb (fun d => (b d - 1 <=? a d) && (a d <=? b d + 1)) U.
 Definition cdelta (o : cobs) (a : Z) : fcoins := lget a (co_deltas o).
-Definition donations_sum (l : list (Z * ocoll)) : fcoins := fun d => zsum (map (fun e => cof (oc_donations (snd e)) d) l).
-Definition donation_book (l : list (Z * ocoll)) (c : Z) : fcoins := match zget c l with Some ob => cof (oc_donations ob) | None => czero end.
 Definition has_contrib (l : list (Z * ocoll)) (c a : Z) : bool :=
   match zget c l with Some ob => zhas a (oc_contribs ob) | None => false end.
+Definition stored_cc (l : list (Z * ocoll)) (c a : Z) : option occ :=
+  match zget c l with Some ob => zget a (oc_contribs ob) | None => None end.
+
+Definition co_ghost (accts : list Z) (S : cspec) (now : Z) (op : co_op) (o : cobs) : cspec :=
+  match op with
+  | CCreate a c bonds _ _ _ =>
+      mkCSp (pset (c, a) (cof bonds) (cp_putin S)) (cp_lock S) (zset c czero (cp_book S)) (cp_mod S) (cp_colls S)
+  | CContribute a c bonds => mkCSp (pset (c, a) (cadd (putin_of S c a) (cof bonds)) (cp_putin S)) (cp_lock S) (cp_book S) (cp_mod S) (cp_colls S)
+  | CDonate a c lock _ _ => mkCSp (cp_putin S) (pset (c, a) (Z.max lock (lock_of S c a)) (cp_lock S)) (cp_book S) (cp_mod S) (cp_colls S)
+  | CWithdraw a c => mkCSp (pset (c, a) czero (cp_putin S)) (pset (c, a) 0 (cp_lock S)) (cp_book S) (cp_mod S) (cp_colls S)
+  | CRemove c =>
+      let gone := filter (fun a => member S c a && negb (has_contrib (co_colls o) c a)) accts in
+      mkCSp (fold_left (fun acc a => pset (c, a) czero acc) gone (cp_putin S))
+            (fold_left (fun acc a => pset (c, a) 0 acc) gone (cp_lock S))
+            (if zhas c (co_colls o) then cp_book S else zset c czero (cp_book S)) (cp_mod S) (cp_colls S)
+  | CSendDonation c _ amt => mkCSp (cp_putin S) (cp_lock S) (zset c (csub (fget c (cp_book S)) (cof amt)) (cp_book S)) (cp_mod S) (cp_colls S)
+  | CSeed c amt => mkCSp (cp_putin S) (cp_lock S) (zset c (cadd (fget c (cp_book S)) (cof amt)) (cp_book S)) (cp_mod S) (cp_colls S)
+  end.
 
 Definition co_step_clauses (accts : list Z) (S : cspec) (now : Z) (op : co_op) (o : cobs) : list string :=
   let mod' := cof (co_mod o) in
@@ -318,31 +385,37 @@ Definition co_step_clauses (accts : list Z) (S : cspec) (now : Z) (op : co_op) (
     flag (ceq out czero && forallb (fun a => ceq (cdelta o a) czero) accts) "rejected_but_changed"
     (* once the lock has expired a contributor can withdraw *)
     ++ match op with
-       | CWithdraw a c =>
-           flag (negb (has_contrib (cp_colls S) c a
-                       && match pget (c, a) (cp_lock S) with Some l => l <=? now | None => true end)) "withdraw_refused_after_lock"
+       | CWithdraw a c => flag (negb (member S c a && (lock_of S c a <=? now))) "withdraw_refused_after_lock"
        | _ => []
        end
   else
+  let G := co_ghost accts S now op o in
   (* donations leave the module account only by a passed send-donation proposal *)
   flag (cle out czero || match op with CSendDonation _ _ _ => true | _ => false end) "donations_left_without_proposal"
-  ++ flag (cle (donations_sum (co_colls o)) mod') "donation_book_exceeds_module_balance"
+  ++ flag (cle (books_sum (cp_book G)) mod') "donation_book_exceeds_module_balance"
+  (* the stored records are what the ghost record says: donation book, bonds, locks never lowered *)
+  ++ flag (forallb (fun e => ceq (cof (oc_donations (snd e))) (fget (fst e) (cp_book G))) (co_colls o))
+          (match op with CSendDonation _ _ _ => "donation_book_not_reduced" | _ => "donation_book_changed_without_proposal" end)
+  ++ flag (forallb (fun e => forallb (fun x => ceq (cof (oc_bonds (snd x))) (putin_of G (fst e) (fst x))) (oc_contribs (snd e))) (co_colls o))
+          "bond_record_not_what_was_put_in"
+  ++ flag (forallb (fun e => forallb (fun x => lock_of G (fst e) (fst x) <=? oc_lock (snd x)) (oc_contribs (snd e))) (co_colls o))
+          "lock_lowered"
   ++ match op with
      | CWithdraw a c =>
-         flag (match pget (c, a) (cp_lock S) with Some l => l <=? now | None => true end) "withdrawn_while_locked"
+         flag (lock_of S c a <=? now) "withdrawn_while_locked"
          ++ flag (near (cdelta o a) (putin_of S c a)) "withdrawn_not_what_was_put_in"
          ++ flag (forallb (fun b => (b =? a) || ceq (cdelta o b) czero) accts) "paid_someone_else"
          ++ flag (ceq out czero) "donations_touched_by_withdraw"
          (* the bonds are returned once: the contributor's record is gone afterwards *)
          ++ flag (negb (has_contrib (co_colls o) c a)) "withdrawn_but_record_kept"
      | CRemove c =>
-         flag (forallb (fun a => negb (has_contrib (cp_colls S) c a && negb (has_contrib (co_colls o) c a))
+         flag (forallb (fun a => negb (member S c a && negb (has_contrib (co_colls o) c a))
                                  || near (cdelta o a) (putin_of S c a)) accts) "removal_not_what_was_put_in"
-         ++ flag (forallb (fun a => (has_contrib (cp_colls S) c a && negb (has_contrib (co_colls o) c a))
+         ++ flag (forallb (fun a => (member S c a && negb (has_contrib (co_colls o) c a))
                                     || ceq (cdelta o a) czero) accts) "removal_paid_but_record_kept"
      | CSendDonation c to amt =>
-         flag (cle (cof amt) (donation_book (cp_colls S) c)) "donation_over_book"
-         ++ flag (ceq out (cof amt) && ceq (donation_book (co_colls o) c) (csub (donation_book (cp_colls S) c) (cof amt))) "donation_book_not_reduced"
+         flag (cle (cof amt) (fget c (cp_book S))) "donation_over_book"
+         ++ flag (ceq out (cof amt)) "donation_not_from_module"
          ++ flag (forallb (fun a => ceq (cdelta o a) (if a =? to then cof amt else czero)) accts) "donation_not_as_proposed"
      | CCreate a c bonds _ _ _ | CContribute a c bonds =>
          flag (forallb (fun b => ceq (cdelta o b) (if b =? a then cscale (-1) (cof bonds) else czero)) accts) "contribution_not_debited_exactly"
@@ -350,20 +423,8 @@ Definition co_step_clauses (accts : list Z) (S : cspec) (now : Z) (op : co_op) (
      | CSeed _ _ => []
      end.
 Definition co_next (accts : list Z) (S : cspec) (now : Z) (op : co_op) (o : cobs) : cspec :=
-  let S' :=
-    if negb (co_res o =? 0) then S else
-    match op with
-    | CCreate a c bonds _ _ _ => mkCSp (pset (c, a) (cof bonds) (cp_putin S)) (cp_lock S) (cp_mod S) (cp_colls S)
-    | CContribute a c bonds => mkCSp (pset (c, a) (cadd (putin_of S c a) (cof bonds)) (cp_putin S)) (cp_lock S) (cp_mod S) (cp_colls S)
-    | CDonate a c lock _ _ => mkCSp (cp_putin S) (pset (c, a) lock (cp_lock S)) (cp_mod S) (cp_colls S)
-    | CWithdraw a c => mkCSp (pset (c, a) czero (cp_putin S)) (pset (c, a) 0 (cp_lock S)) (cp_mod S) (cp_colls S)
-    | CRemove c =>
-        let gone := filter (fun a => has_contrib (cp_colls S) c a && negb (has_contrib (co_colls o) c a)) accts in
-        mkCSp (fold_left (fun acc a => pset (c, a) czero acc) gone (cp_putin S))
-              (fold_left (fun acc a => pset (c, a) 0 acc) gone (cp_lock S)) (cp_mod S) (cp_colls S)
-    | _ => S
-    end in
-  mkCSp (cp_putin S') (cp_lock S') (cof (co_mod o)) (co_colls o).
+  let G := if co_res o =? 0 then co_ghost accts S now op o else S in
+  mkCSp (cp_putin G) (cp_lock G) (cp_book G) (cof (co_mod o)) (co_colls o).
 Fixpoint co_clauses (accts : list Z) (S : cspec) (h : list (Z * co_op * cobs)) : list string :=
   match h with
   | [] => []
@@ -375,9 +436,9 @@ Fixpoint dedup_str (l : list string) : list string :=
 Definition case_clauses (c : c18_case) : list string :=
   dedup_str
   match c with
-  | CSpend bank0 mod0 h => sp_clauses (map fst bank0) (mkSS [] (cof mod0) []) h
-  | CUbi hardcap recs0 books0 h => ubi_clauses (mkUSp recs0 (map (fun e => (fst e, u_last (snd e))) recs0) books0 0) h
-  | CColl bank0 mod0 h => co_clauses (map fst bank0) (mkCSp [] [] (cof mod0) []) h
+  | CSpend bank0 mod0 h => sp_clauses (map fst bank0) (mkSS [] [] [] (cof mod0) []) h
+  | CUbi hardcap recs0 books0 h => ubi_clauses (mkUSp recs0 recs0 books0 0) h
+  | CColl bank0 mod0 h => co_clauses (map fst bank0) (mkCSp [] [] [] (cof mod0) []) h
   end.
 Fixpoint violations_from (n : nat) (cs : list c18_case) : list (nat * list string) :=
   match cs with [] => [] | c :: r =>
